@@ -51,6 +51,10 @@ CLAIMED.update({
  'C19': dict(text='A DeckRecord with symbolic int/string values and a symbolic defaulted pattern is written with the real DeckRecord::write/DeckItem::write_vector/DeckOutput code (n* collapsing, separators, record end) to an in-memory stream, then tokenised and scanned back through the real RawRecord/ParserRecord::parse/ParserItem::scan/StarToken path; z3 decides on every path that values and defaulted flags are recovered and that writing the re-read record reproduces the text.',
              note='4 single-valued items; ints in (-100,1000) for two items, strings of 3 chars incl. embedded blank/slash/star; doubles, data arrays with line splitting, TITLE/code/table-collection shapes and FileDeck outside; ostringstream replaced by the stream model', design='4/C19'),
 })
+CLAIMED.update({
+ 'C03': dict(text='Narrow claim: only the copy-on-write mechanism behind "earlier report steps are immutable" is decided - ScheduleState::ptr_member<T> and map_member<K,T>, instantiated from the real header and executed with symbolic contents: after copying a state member and replacing/adding entries in the copy, every query on the original returns what it returned before (same values, same object addresses) and untouched entries remain shared.',
+             note='the larger part of the property (every keyword handler\'s fetch-copy-modify-update discipline, iterateScheduleSection, the DATES/TSTEP partition) needs a whole Schedule and is outside: a handler that mutates through a shared pointer is not seen by this check', design='4/C03'),
+})
 NA = {
 }
 ALL = ['C%02d' % i for i in range(1, 21)]
